@@ -397,7 +397,7 @@ def s3_labels(c):
 
 # --------------------------------------------------------------------------------------------- predicates
 PRED = ["perp_lines2", "perp_lines3", "perp_planes", "parallel_lines2", "parallel_planes", "parallel_line_plane", "cocircular", "collinear2", "coplanar3",
-        "concurrent2", "bisectors2", "bisectors3"]
+        "concurrent2", "bisectors2", "bisectors3", "same_object"]
 
 
 @st.composite
@@ -427,6 +427,38 @@ def run_pred(c):
             return
         ck.check(np.all(np.asarray(r) == t), site + tag, (np.asarray(r).tolist(), t))
 
+    if cfg == "same_object":
+        # one and the same Python object in two argument positions: the answer is that of an equal-valued second object
+        # (a point counted twice is trivially collinear / coplanar / cocircular with the others, a line meets itself)
+        d3 = bool(v[15] % 2)
+        n = 4 if d3 else 3
+        pts = [np.array([float(x) for x in v[i * 3 : i * 3 + n - 1]] + [1.0]) for i in range(4)]
+        if X.rank([[Fraction(int(x)) for x in p] for p in pts[:3]]) < 3 or (d3 and X.rank([[Fraction(int(x)) for x in p] for p in pts]) < 4):
+            raise Skip("dependent")
+        p, q, r_, w = [Point(x * s[i % 2]) for i, x in enumerate(pts)]
+        if d3:
+            L = G.Line(p, q)
+            calls = [("is_coplanar(p,p,q,r)", lambda: is_coplanar(p, p, q, r_), lambda: is_coplanar(p, Point(p.array.copy()), q, r_)),
+                     ("is_coplanar(p,q,r,p)", lambda: is_coplanar(p, q, r_, p), lambda: is_coplanar(p, q, r_, Point(p.array.copy()))),
+                     ("is_coplanar(p,p,q,r,w)", lambda: is_coplanar(p, p, q, r_, w), lambda: is_coplanar(p, Point(p.array.copy()), q, r_, w)),
+                     ("line.is_coplanar(line)", lambda: L.is_coplanar(L), lambda: L.is_coplanar(G.Line(L.array.copy())))]
+        else:
+            l, m = G.Line(p, q), G.Line(p, r_)
+            calls = [("is_collinear(p,p,q)", lambda: is_collinear(p, p, q), lambda: is_collinear(p, Point(p.array.copy()), q)),
+                     ("is_collinear(p,q,p)", lambda: is_collinear(p, q, p), lambda: is_collinear(p, q, Point(p.array.copy()))),
+                     ("is_collinear(p,p,q,r)", lambda: is_collinear(p, p, q, r_), lambda: is_collinear(p, Point(p.array.copy()), q, r_)),
+                     ("is_concurrent(l,l,m)", lambda: is_concurrent(l, l, m), lambda: is_concurrent(l, G.Line(l.array.copy()), m)),
+                     ("is_cocircular(p,p,q,r)", lambda: is_cocircular(p, p, q, r_), lambda: is_cocircular(p, Point(p.array.copy()), q, r_))]
+        for name, aliased, twin in calls:
+            r1, f1 = call(f"same_object:{name}", aliased)
+            r2, f2 = call(f"same_object:{name}:twin", twin)
+            if f2:
+                continue  # the equal-valued call itself fails: subject of the other configurations
+            if f1:
+                ck.add(f1)
+                continue
+            ck.check(np.array_equal(np.asarray(r1), np.asarray(r2)), f"same_object:{name}", (np.asarray(r1).tolist(), np.asarray(r2).tolist()))
+        return ck.result()
     if cfg in ("perp_lines2", "parallel_lines2", "bisectors2"):
         a = np.array(v[0:2], float)
         d = np.array(v[2:4], float)
@@ -585,7 +617,7 @@ def run_pred(c):
 def mixed_case(draw, tier="quick"):
     what = draw(st.sampled_from(["collinear2", "concurrent2", "coplanar3"]))
     k = draw(st.integers(2, 4))
-    return {"what": what, "pos": [{"v": [draw(C.ints(4)) for _ in range(12)], "mode": draw(st.sampled_from(["all", "first", "later", "all"])), "c": draw(st.sampled_from([2, -1, 3]))} for _ in range(k)],
+    return {"what": what, "pos": [{"v": [draw(C.ints(4)) for _ in range(12)], "mode": draw(st.sampled_from(["all", "first", "later", "all", "dep_lead_true", "dep_lead_false"])), "c": draw(st.sampled_from([2, -1, 3]))} for _ in range(k)],
             "bcast_first": draw(st.booleans())}
 
 
@@ -618,10 +650,17 @@ def mixed_columns(c):
         dep1 = sum((i + 1) * b for i, b in enumerate(base))  # in the span
         dep2 = sum((ps["c"] if i == 0 else 1) * b for i, b in enumerate(base))
         mode = ps["mode"]
+        # dependent leading arguments: the first d objects do not span the hyperplane (a multiple of the first object, or in
+        # 3D three collinear points); the remaining ones decide
+        lead = [base[0], ps["c"] * base[0]] if d == 2 else [base[0], base[1], base[0] + ps["c"] * base[1]]
         if mode == "all":
             els, t = base + [dep1, dep2], True
         elif mode == "first":
             els, t = base + [off, dep2], False
+        elif mode == "dep_lead_true":
+            els, t = lead + [base[-1], dep1], True
+        elif mode == "dep_lead_false":
+            els, t = lead + [base[-1], off], False
         else:
             els, t = base + [dep1, off], False
         for j in range(nargs):
